@@ -12,13 +12,13 @@ import (
 
 type libModel func(tr *FnTr, x ssa.Value, args []Val, cc *ssa.CallCommon) Val
 
-var libModels map[string]libModel
+var libModels = map[string]libModel{}
 
 // libEffects: (writes, allocs) of external functions known to the engine.
 var libEffects = map[string][2]bool{}
 
 func init() {
-	libModels = map[string]libModel{}
+
 	for _, end := range []string{"littleEndian", "bigEndian"} {
 		be := end == "bigEndian"
 		for _, n := range []int{2, 4, 8} {
@@ -62,6 +62,31 @@ func init() {
 		}
 		libEffects[n] = [2]bool{false, true}
 	}
+	// sync.Mutex / sync.RWMutex: a ghost lock counter per mutex address (sequential reading).
+	// Unlock of a mutex that is not held is a fatal error in Go: obligation.
+	for _, n := range []string{"sync.(*Mutex).Lock", "sync.(*RWMutex).Lock", "sync.(*RWMutex).RLock"} {
+		n := n
+		libModels[n] = func(tr *FnTr, x ssa.Value, args []Val, cc *ssa.CallCommon) Val {
+			tr.usedModel("sync mutex as a ghost lock counter (sequential semantics)")
+			tr.lockOp(args[0], 1, x)
+			return Val{}
+		}
+		libEffects[n] = [2]bool{false, false}
+	}
+	for _, n := range []string{"sync.(*Mutex).Unlock", "sync.(*RWMutex).Unlock", "sync.(*RWMutex).RUnlock"} {
+		n := n
+		libModels[n] = func(tr *FnTr, x ssa.Value, args []Val, cc *ssa.CallCommon) Val {
+			tr.usedModel("sync mutex as a ghost lock counter (sequential semantics)")
+			tr.lockOp(args[0], -1, x)
+			return Val{}
+		}
+		libEffects[n] = [2]bool{false, false}
+	}
+	libModels["strings.HasPrefix"] = func(tr *FnTr, x ssa.Value, args []Val, cc *ssa.CallCommon) Val {
+		tr.usedModel("strings.HasPrefix (pure, verdict unconstrained)")
+		return Val{L: []*Term{tr.vc.Fresh("hasprefix", SBool)}}
+	}
+	libEffects["strings.HasPrefix"] = [2]bool{false, false}
 	libModels["bytes.Equal"] = func(tr *FnTr, x ssa.Value, args []Val, cc *ssa.CallCommon) Val {
 		tr.usedModel("bytes.Equal")
 		return Val{L: []*Term{tr.bytesEqual(args[0], args[1])}}
@@ -195,4 +220,16 @@ func carryDiscarded(x ssa.Value) bool {
 		}
 	}
 	return true
+}
+
+func (tr *FnTr) lockOp(mu Val, delta int64, x ssa.Value) {
+	obj, off := mu.L[0], mu.L[1]
+	tr.check("nil", Ne(obj, Int(0)), posOf(x))
+	top := tr.top
+	top.lockSites = append(top.lockSites, [2]*Term{obj, off})
+	cur := Select(Select(tr.st.Locks, obj), off)
+	if delta < 0 {
+		tr.vc.Oblige(tr.prefix+"lock.unlock_held", "", Implies(tr.st.Reach, Gt(cur, Int(0))), tr.pos(posOf(x)))
+	}
+	tr.st.Locks = tr.vc.Def("locks", Store(tr.st.Locks, obj, Store(Select(tr.st.Locks, obj), off, Add(cur, Int(delta)))))
 }
